@@ -75,7 +75,7 @@ def _eligible(fn: ast.FunctionDef, is_method: bool) -> bool:
     if not _is_private(fn.name):
         return False
     for d in fn.decorator_list:
-        if not (isinstance(d, ast.Name) and d.id == "staticmethod"):
+        if not (isinstance(d, ast.Name) and d.id in ("staticmethod", "classmethod")):
             return False
     a = fn.args
     if a.vararg or a.kwarg or a.posonlyargs:
@@ -252,6 +252,7 @@ class _Inliner:
     generators: Dict[str, ast.FunctionDef] = {}
     method_generators: Dict[str, ast.FunctionDef] = {}
     factories: Dict[str, ast.FunctionDef] = {}
+    class_helpers: Dict[Tuple[str, str], ast.FunctionDef] = {}
 
     def __init__(self, helpers: Dict[str, ast.FunctionDef], method_helpers: Dict[str, ast.FunctionDef]):
         self.helpers = helpers
@@ -266,6 +267,9 @@ class _Inliner:
             return self.helpers[f.id], False
         if isinstance(f, ast.Attribute) and isinstance(f.value, ast.Name) and f.value.id == "self" and f.attr in self.method_helpers:
             return self.method_helpers[f.attr], True
+        if isinstance(f, ast.Attribute) and isinstance(f.value, ast.Name) and (f.value.id, f.attr) in self.class_helpers:
+            # Class._factory(...): a private classmethod / staticmethod called through the class
+            return self.class_helpers[(f.value.id, f.attr)], ("cls", f.value.id)
         return None
 
     def bind(self, fn: ast.FunctionDef, call: ast.Call, is_method: bool):
@@ -308,7 +312,12 @@ class _Inliner:
         prelude: List[ast.stmt] = []
         for p in params:
             a = given[p]
-            if p not in assigned and _simple_arg(a):
+            only_called = isinstance(a, ast.Lambda) and all(
+                isinstance(par_, ast.Call) and par_.func is n_ for par_ in ast.walk(fn) for n_ in ast.iter_child_nodes(par_)
+                if isinstance(n_, ast.Name) and n_.id == p) and not any(
+                isinstance(n_, ast.Name) and n_.id == p and not any(isinstance(c_, ast.Call) and c_.func is n_ for c_ in ast.walk(fn))
+                for n_ in ast.walk(fn))
+            if p not in assigned and (_simple_arg(a) or only_called):
                 mapping[p] = a
             else:
                 rename[p] = p + tag
@@ -316,6 +325,8 @@ class _Inliner:
         for n in assigned:
             if n not in rename and n not in params:
                 rename[n] = n + tag
+        if isinstance(is_method, tuple) and not static and fn.args.args:
+            mapping[fn.args.args[0].arg] = ast.Name(id=is_method[1], ctx=ast.Load())     # cls is the class it was called through
         return prelude, mapping, rename, tag
 
     # ------------------------------------------------------------------
@@ -329,6 +340,8 @@ class _Inliner:
         body = copy.deepcopy(_body_wo_doc(fn))
         sub = _Subst(mapping, rename)
         body = [sub.visit(s) for s in body]
+        if any(isinstance(v, ast.Lambda) for v in mapping.values()):
+            body = [_JoinSingle().visit(_BetaReduce().visit(s)) for s in body]
         folded: List[ast.stmt] = []
         for s in body:
             r = _Fold().visit(s)
@@ -854,6 +867,43 @@ def _module_tables(tree: ast.Module) -> Dict[str, ast.expr]:
 _DICT_MUTATORS = {"update", "pop", "popitem", "setdefault", "clear", "__setitem__", "__delitem__"}
 
 
+def _inline_module_literals(tree: ast.Module) -> None:
+    """_NAME = "literal" (str / int / bool, private upper-case name bound exactly once at module level, never declared global):
+    every read inside a function that does not bind the name itself is the literal."""
+    count: Dict[str, int] = {}
+    val: Dict[str, ast.Constant] = {}
+    for n in ast.walk(tree):
+        if isinstance(n, ast.Name) and isinstance(n.ctx, (ast.Store, ast.Del)):
+            count[n.id] = count.get(n.id, 0) + 1
+        elif isinstance(n, (ast.Global, ast.Nonlocal)):
+            for g in n.names:
+                count[g] = count.get(g, 0) + 2
+    for st in tree.body:
+        tgt = v = None
+        if isinstance(st, ast.Assign) and len(st.targets) == 1 and isinstance(st.targets[0], ast.Name):
+            tgt, v = st.targets[0].id, st.value
+        elif isinstance(st, ast.AnnAssign) and isinstance(st.target, ast.Name) and st.value is not None:
+            tgt, v = st.target.id, st.value
+        if tgt and count.get(tgt) == 1 and isinstance(v, ast.Constant) and isinstance(v.value, (str, int, bool)) \
+                and tgt.startswith("_") and not tgt.startswith("__") and tgt.upper() == tgt:
+            val[tgt] = v
+    if not val:
+        return
+
+    class T(ast.NodeTransformer):
+        def visit_Name(self, n):
+            if isinstance(n.ctx, ast.Load) and n.id in val:
+                return ast.copy_location(ast.Constant(value=val[n.id].value), n)
+            return n
+    for node in ast.walk(tree):
+        if isinstance(node, ast.FunctionDef):
+            params = {a.arg for a in node.args.posonlyargs + node.args.args + node.args.kwonlyargs}
+            if not (params & set(val)):
+                for i, st in enumerate(node.body):
+                    node.body[i] = T().visit(st)
+    ast.fix_missing_locations(tree)
+
+
 def _inline_constant_dict_copies(tree: ast.Module) -> None:
     """NAME = {...} bound once at module level and never written through (no NAME[k] = v, del NAME[k], NAME.update(...) ...):
     a *copy* of it - dict(NAME), NAME.copy(), copy.copy(NAME), copy.deepcopy(NAME), {**NAME} - is the display itself."""
@@ -1003,6 +1053,26 @@ def _expand_table_comprehensions(tree: ast.Module, tables: Dict[str, ast.expr]) 
     ast.fix_missing_locations(tree)
 
 
+class _BetaReduce(ast.NodeTransformer):
+    """(lambda x, y: E)(a, b) with plain positional arguments is E[x := a, y := b] (each parameter used at most once, or the
+    argument a plain name / constant / attribute chain)."""
+
+    def visit_Call(self, c):
+        self.generic_visit(c)
+        f = c.func
+        if isinstance(f, ast.Lambda) and not c.keywords and not any(isinstance(a, ast.Starred) for a in c.args):
+            a = f.args
+            if a.vararg or a.kwarg or a.kwonlyargs or a.defaults or a.posonlyargs or len(a.args) != len(c.args):
+                return c
+            params = [x.arg for x in a.args]
+            for p_, arg in zip(params, c.args):
+                uses = sum(1 for n in ast.walk(f.body) if isinstance(n, ast.Name) and n.id == p_)
+                if uses > 1 and not _simple_arg(arg):
+                    return c
+            return ast.copy_location(_Subst(dict(zip(params, c.args)), {}).visit(copy.deepcopy(f.body)), c)
+        return c
+
+
 class _JoinSingle(ast.NodeTransformer):
     """os.path.join(x) with one plain argument is x."""
 
@@ -1015,22 +1085,194 @@ class _JoinSingle(ast.NodeTransformer):
         return c
 
 
+def _search_defs_to_any(fn: ast.FunctionDef) -> None:
+    """def p(x):                         (nested in fn, nothing else in the body)
+           for e in IT: 
+               if C: return K1           K1, K2 the two boolean constants
+           return K2
+    is   def p(x): return any(C for e in IT)   (K1 True)   /   return not any(C for e in IT)   (K1 False)."""
+    for g in [n for n in ast.walk(fn) if isinstance(n, ast.FunctionDef) and n is not fn]:
+        body = _body_wo_doc(g)
+        if len(body) != 2 or not isinstance(body[0], ast.For) or body[0].orelse or not isinstance(body[1], ast.Return):
+            continue
+        loop, last = body
+        if len(loop.body) != 1 or not isinstance(loop.body[0], ast.If) or loop.body[0].orelse or len(loop.body[0].body) != 1:
+            continue
+        ret = loop.body[0].body[0]
+        if not (isinstance(ret, ast.Return) and isinstance(ret.value, ast.Constant) and isinstance(ret.value.value, bool)
+                and isinstance(last.value, ast.Constant) and isinstance(last.value.value, bool)
+                and ret.value.value != last.value.value):
+            continue
+        gen = ast.GeneratorExp(elt=loop.body[0].test, generators=[ast.comprehension(target=loop.target, iter=loop.iter, ifs=[], is_async=0)])
+        call = ast.Call(func=ast.Name(id="any", ctx=ast.Load()), args=[gen], keywords=[])
+        expr = call if ret.value.value else ast.UnaryOp(op=ast.Not(), operand=call)
+        doc = g.body[:len(g.body) - 2]
+        g.body = doc + [ast.copy_location(ast.Return(value=expr), last)]
+        ast.fix_missing_locations(g)
+
+
+def _inline_search_predicates(fn: ast.FunctionDef) -> bool:
+    """def p(x): [logging / plain call statements]; for e in IT: if C: return K1; return K2      nested in fn and only used as
+    `if p(a): BODY` / `if not p(a): BODY` (plain-name arguments, no else): each such statement becomes the statements of the
+    prelude followed by the search loop itself - `for e in IT: if C: break  else: BODY` when BODY runs for "no element
+    matched", `for e in IT: if C: BODY; break` otherwise."""
+    changed = False
+    parents = {ch: par for par in ast.walk(fn) for ch in ast.iter_child_nodes(par)}
+    for g in [n for n in ast.walk(fn) if isinstance(n, ast.FunctionDef) and n is not fn]:
+        body = _body_wo_doc(g)
+        a = g.args
+        if len(body) < 2 or g.decorator_list or a.defaults or a.kwonlyargs or a.kwarg or a.vararg or a.posonlyargs:
+            continue
+        pre, loop, last = body[:-2], body[-2], body[-1]
+        if not (isinstance(loop, ast.For) and not loop.orelse and isinstance(last, ast.Return) and len(loop.body) == 1
+                and isinstance(loop.body[0], ast.If) and not loop.body[0].orelse and len(loop.body[0].body) == 1
+                and all(isinstance(x, ast.Expr) and isinstance(x.value, ast.Call) for x in pre)):
+            continue
+        ret = loop.body[0].body[0]
+        if not (isinstance(ret, ast.Return) and isinstance(ret.value, ast.Constant) and isinstance(ret.value.value, bool)
+                and isinstance(last.value, ast.Constant) and isinstance(last.value.value, bool) and ret.value.value != last.value.value):
+            continue
+        params = [x.arg for x in a.args]
+        uses = [n for n in ast.walk(fn) if isinstance(n, ast.Name) and n.id == g.name and not any(n is m for m in ast.walk(g))]
+        sites = []
+        ok = bool(uses)
+        for u in uses:
+            call = parents.get(u)
+            test = call
+            neg = False
+            par = parents.get(call)
+            if isinstance(par, ast.UnaryOp) and isinstance(par.op, ast.Not):
+                test, neg, par = par, True, parents.get(par)
+            if not (isinstance(call, ast.Call) and call.func is u and not call.keywords and len(call.args) == len(params)
+                    and all(isinstance(x, ast.Name) for x in call.args) and isinstance(par, ast.If) and par.test is test and not par.orelse):
+                ok = False
+                break
+            sites.append((par, call, neg))
+        if not ok:
+            continue
+        for if_st, call, neg in sites:
+            m = dict(zip(params, call.args))
+            sub = lambda node: _Subst(m, {}).visit(copy.deepcopy(node))
+            on_match = ret.value.value != neg        # BODY runs when an element matched?
+            if on_match:
+                if any(isinstance(n, (ast.Break, ast.Continue)) for b in if_st.body for n in ast.walk(b)):
+                    ok = False
+                    break
+                new_loop = ast.For(target=copy.deepcopy(loop.target), iter=sub(loop.iter),
+                                   body=[ast.If(test=sub(loop.body[0].test), body=list(if_st.body) + [ast.Break()], orelse=[])],
+                                   orelse=[], type_comment=None)
+            else:
+                new_loop = ast.For(target=copy.deepcopy(loop.target), iter=sub(loop.iter),
+                                   body=[ast.If(test=sub(loop.body[0].test), body=[ast.Break()], orelse=[])],
+                                   orelse=list(if_st.body), type_comment=None)
+            new = [sub(x) for x in pre] + [new_loop]
+            for x in new:
+                ast.copy_location(x, if_st)
+                ast.fix_missing_locations(x)
+            for owner in ast.walk(fn):
+                for field in ("body", "orelse", "finalbody"):
+                    blk = getattr(owner, field, None)
+                    if isinstance(blk, list) and any(x is if_st for x in blk):
+                        i = [k for k, x in enumerate(blk) if x is if_st][0]
+                        blk[i:i + 1] = new
+        if not ok:
+            continue
+        for owner in ast.walk(fn):
+            for field in ("body", "orelse", "finalbody"):
+                blk = getattr(owner, field, None)
+                if isinstance(blk, list) and any(x is g for x in blk):
+                    blk[:] = [x for x in blk if x is not g] or [ast.Pass()]
+        ast.fix_missing_locations(fn)
+        changed = True
+        parents = {ch: par for par in ast.walk(fn) for ch in ast.iter_child_nodes(par)}
+    return changed
+
+
+def _any_to_search_loops(fn: ast.FunctionDef) -> bool:
+    """if not any(C for e in IT): BODY      (statement, no else)   is   for e in IT: if C: break   else: BODY
+    if any(C for e in IT): BODY                                    is   for e in IT: if C: BODY; break       (BODY without break/continue)"""
+    changed = False
+    for owner in ast.walk(fn):
+        for field in ("body", "orelse", "finalbody"):
+            block = getattr(owner, field, None)
+            if not isinstance(block, list):
+                continue
+            for i, st in enumerate(block):
+                if not (isinstance(st, ast.If) and not st.orelse):
+                    continue
+                t, neg = st.test, False
+                if isinstance(t, ast.UnaryOp) and isinstance(t.op, ast.Not):
+                    t, neg = t.operand, True
+                if not (isinstance(t, ast.Call) and isinstance(t.func, ast.Name) and t.func.id == "any" and len(t.args) == 1
+                        and not t.keywords and isinstance(t.args[0], (ast.GeneratorExp, ast.ListComp)) and len(t.args[0].generators) == 1
+                        and not t.args[0].generators[0].is_async):
+                    continue
+                comp = t.args[0].generators[0]
+                cond = t.args[0].elt
+                for extra in reversed(comp.ifs):
+                    cond = ast.BoolOp(op=ast.And(), values=[extra, cond])
+                targets = {n.id for n in ast.walk(comp.target) if isinstance(n, ast.Name)}
+                if any(isinstance(n, ast.Name) and n.id in targets for b in st.body for n in ast.walk(b)):
+                    continue            # the body would see the loop variable
+                if neg:
+                    new = ast.For(target=comp.target, iter=comp.iter, body=[ast.If(test=cond, body=[ast.Break()], orelse=[])],
+                                  orelse=list(st.body), type_comment=None)
+                else:
+                    if any(isinstance(n, (ast.Break, ast.Continue)) for b in st.body for n in ast.walk(b)):
+                        continue
+                    new = ast.For(target=comp.target, iter=comp.iter,
+                                  body=[ast.If(test=cond, body=list(st.body) + [ast.Break()], orelse=[])], orelse=[], type_comment=None)
+                for n in ast.walk(new):
+                    if isinstance(n, ast.Name) and n.id in targets and isinstance(n.ctx, ast.Load) and any(n is x for x in ast.walk(comp.target)):
+                        pass
+                def to_store(tn):
+                    for n in ast.walk(tn):
+                        if isinstance(n, (ast.Name, ast.Tuple, ast.List, ast.Starred)):
+                            n.ctx = ast.Store()
+                to_store(new.target)
+                ast.copy_location(new, st)
+                ast.fix_missing_locations(new)
+                block[i] = new
+                changed = True
+    return changed
+
+
 def _inline_expression_closures(fn: ast.FunctionDef) -> bool:
     """def g(a, *rest): return EXPR   nested in `fn` (no decorators, defaults or keyword-only parameters; `g` bound once and
     only ever called with plain positional arguments; the enclosing function's names that EXPR reads are bound at most once in
     it): every call g(x, y, z) is EXPR with a := x and `*rest` spelled out as y, z.  The closure itself is removed."""
     changed = False
-    for g in [n for n in fn.body if isinstance(n, ast.FunctionDef)]:
+    # g = lambda a: EXPR   bound once at the top level of the function reads like   def g(a): return EXPR
+    stores_: Dict[str, int] = {}
+    for n in ast.walk(fn):
+        if isinstance(n, ast.Name) and isinstance(n.ctx, (ast.Store, ast.Del)):
+            stores_[n.id] = stores_.get(n.id, 0) + 1
+    for i_, st_ in enumerate(list(fn.body)):
+        if isinstance(st_, ast.Assign) and len(st_.targets) == 1 and isinstance(st_.targets[0], ast.Name) \
+                and isinstance(st_.value, ast.Lambda) and stores_.get(st_.targets[0].id) == 1:
+            g_ = ast.FunctionDef(name=st_.targets[0].id, args=st_.value.args, body=[ast.Return(value=st_.value.body)],
+                                 decorator_list=[], returns=None, type_params=[])
+            ast.copy_location(g_, st_)
+            ast.fix_missing_locations(g_)
+            fn.body[fn.body.index(st_)] = g_
+    _search_defs_to_any(fn)
+    nested = [n for n in ast.walk(fn) if isinstance(n, ast.FunctionDef) and n is not fn
+              and not any(isinstance(o, (ast.FunctionDef, ast.ClassDef, ast.Lambda)) and o is not fn and o is not n
+                          and any(x is n for x in ast.walk(o)) for o in ast.walk(fn))]
+    for g in nested:
         body = _body_wo_doc(g)
         a = g.args
         if len(body) != 1 or not isinstance(body[0], ast.Return) or body[0].value is None or g.decorator_list \
                 or a.defaults or a.kwonlyargs or a.kwarg or a.posonlyargs:
             continue
         expr = body[0].value
-        if any(isinstance(n, (ast.Lambda, ast.Yield, ast.YieldFrom, ast.Await, ast.NamedExpr, ast.ListComp, ast.SetComp,
-                              ast.DictComp, ast.GeneratorExp)) for n in ast.walk(expr)):
+        if any(isinstance(n, (ast.Lambda, ast.Yield, ast.YieldFrom, ast.Await, ast.NamedExpr)) for n in ast.walk(expr)):
             continue
         params = [x.arg for x in a.args]
+        comp_targets = {n.id for c_ in ast.walk(expr) if isinstance(c_, ast.comprehension) for n in ast.walk(c_.target)
+                        if isinstance(n, ast.Name)}
+        if comp_targets & (set(params) | ({a.vararg.arg} if a.vararg else set())):
+            continue
         var = a.vararg.arg if a.vararg else None
         # uses of g in the enclosing function
         uses = [n for n in ast.walk(fn) if isinstance(n, ast.Name) and n.id == g.name and not any(n is m for m in ast.walk(g))]
@@ -1092,11 +1334,183 @@ def _inline_expression_closures(fn: ast.FunctionDef) -> bool:
                 if isinstance(c.func, ast.Name) and c.func.id == g.name:
                     return ast.copy_location(_JoinSingle().visit(Sub(c).visit(copy.deepcopy(expr))), c)
                 return c
-        fn.body = [st for st in fn.body if st is not g]
+        for owner in ast.walk(fn):
+            for field in ("body", "orelse", "finalbody"):
+                blk = getattr(owner, field, None)
+                if isinstance(blk, list) and any(x is g for x in blk):
+                    blk[:] = [x for x in blk if x is not g] or [ast.Pass()]
         for i, st in enumerate(fn.body):
             fn.body[i] = Repl().visit(st)
         ast.fix_missing_locations(fn)
         changed = True
+    return changed
+
+
+def _is_cm_decorator(d: ast.expr) -> bool:
+    return (isinstance(d, ast.Name) and d.id == "contextmanager") or \
+        (isinstance(d, ast.Attribute) and d.attr == "contextmanager")
+
+
+def _inline_contextmanagers(tree: ast.Module) -> List[str]:
+    """with _cm(args) as t: BODY   where _cm is a @contextmanager generator of the module (or a method of the same class called
+    through self) of the shape  PRE; yield V; POST  or  PRE; try: PRE2; yield V; POST2 except/finally ...; POST:
+    the statement is what the generator protocol makes of it - PRE; t = V; BODY; POST (the try wrapped around BODY in the
+    second shape).  The context manager itself is dropped once nothing refers to it."""
+    used: List[str] = []
+
+    def shape(fn: ast.FunctionDef):
+        body = _body_wo_doc(fn)
+        ys = [n for n in ast.walk(fn) if isinstance(n, (ast.Yield, ast.YieldFrom))]
+        if len(ys) != 1 or not isinstance(ys[0], ast.Yield) or any(isinstance(n, ast.Return) and n.value is not None for n in ast.walk(fn)):
+            return None
+
+        def split(stmts):
+            for i, st in enumerate(stmts):
+                if isinstance(st, ast.Expr) and st.value is ys[0]:
+                    return stmts[:i], stmts[i + 1:]
+            return None
+        sp = split(body)
+        if sp is not None:
+            return ("flat", sp[0], sp[1], None)
+        for i, st in enumerate(body):
+            if isinstance(st, ast.Try) and any(n is ys[0] for n in ast.walk(st)):
+                inner = split(st.body)
+                if inner is None or any(any(n is ys[0] for n in ast.walk(x)) for x in st.handlers + st.orelse + st.finalbody):
+                    return None
+                return ("try", body[:i], body[i + 1:], (st, inner[0], inner[1]))
+        return None
+
+    def expand(with_st: ast.With, fn: ast.FunctionDef, is_method: bool) -> Optional[List[ast.stmt]]:
+        sh = shape(fn)
+        if sh is None or len(with_st.items) != 1:
+            return None
+        item = with_st.items[0]
+        if item.optional_vars is not None and not isinstance(item.optional_vars, ast.Name):
+            return None
+        inl = _Inliner({}, {})
+        inl.counter = expand.counter = getattr(expand, "counter", 0) + 1
+        b = inl.bind(fn, item.context_expr, is_method)
+        if b is None:
+            return None
+        prelude, mapping, rename, tag = b
+        ys = [n for n in ast.walk(fn) if isinstance(n, ast.Yield)][0]
+
+        def conv(stmts):
+            return [_Subst(mapping, rename).visit(copy.deepcopy(x)) for x in stmts]
+        val = _Subst(mapping, rename).visit(copy.deepcopy(ys.value)) if ys.value is not None else ast.Constant(value=None)
+        bind_t = [ast.Assign(targets=[ast.Name(id=item.optional_vars.id, ctx=ast.Store())], value=val)] if item.optional_vars is not None \
+            else ([ast.Expr(value=val)] if any(isinstance(n, ast.Call) for n in ast.walk(val)) else [])
+        kind, pre, post, tr = sh
+        if kind == "flat":
+            out = prelude + conv(pre) + bind_t + list(with_st.body) + conv(post)
+        else:
+            t, pre2, post2 = tr
+            new_try = ast.Try(body=conv(pre2) + bind_t + list(with_st.body) + conv(post2), handlers=conv(t.handlers),
+                              orelse=conv(t.orelse), finalbody=conv(t.finalbody))
+            out = prelude + conv(pre) + [new_try] + conv(post)
+        for x in out:
+            ast.copy_location(x, with_st)
+            ast.fix_missing_locations(x)
+        return out
+
+    mod_cms = {n.name: n for n in tree.body if isinstance(n, ast.FunctionDef) and any(_is_cm_decorator(d) for d in n.decorator_list)}
+
+    def rewrite(block: List[ast.stmt], cls_cms: Dict[str, ast.FunctionDef]) -> None:
+        i = 0
+        while i < len(block):
+            st = block[i]
+            for field in ("body", "orelse", "finalbody"):
+                sub = getattr(st, field, None)
+                if isinstance(sub, list) and not isinstance(st, (ast.FunctionDef, ast.ClassDef)):
+                    rewrite(sub, cls_cms)
+            if isinstance(st, ast.Try):
+                for h in st.handlers:
+                    rewrite(h.body, cls_cms)
+            if isinstance(st, ast.With) and len(st.items) == 1 and isinstance(st.items[0].context_expr, ast.Call):
+                f = st.items[0].context_expr.func
+                target = None
+                if isinstance(f, ast.Name) and f.id in mod_cms:
+                    target = (mod_cms[f.id], False)
+                elif isinstance(f, ast.Attribute) and isinstance(f.value, ast.Name) and f.value.id == "self" and f.attr in cls_cms:
+                    target = (cls_cms[f.attr], True)
+                if target is not None:
+                    fn2 = copy.deepcopy(target[0])
+                    fn2.decorator_list = []
+                    new = expand(st, fn2, target[1])
+                    if new is not None:
+                        block[i:i + 1] = new
+                        used.append(target[0].name)
+                        i += len(new)
+                        continue
+            i += 1
+
+    for node in tree.body:
+        if isinstance(node, ast.FunctionDef) and node.name not in mod_cms:
+            rewrite(node.body, {})
+        elif isinstance(node, ast.ClassDef):
+            cls_cms = {m.name: m for m in node.body if isinstance(m, ast.FunctionDef) and any(_is_cm_decorator(d) for d in m.decorator_list)}
+            for m in node.body:
+                if isinstance(m, ast.FunctionDef) and m.name not in cls_cms:
+                    rewrite(m.body, cls_cms)
+    # drop the ones nothing refers to any more
+    for name in set(used):
+        refs = [n for n in ast.walk(tree) if (isinstance(n, ast.Name) and n.id == name and isinstance(n.ctx, ast.Load))
+                or (isinstance(n, ast.Attribute) and n.attr == name)]
+        if not refs:
+            tree.body = [n for n in tree.body if not (isinstance(n, ast.FunctionDef) and n.name == name)]
+            for c in tree.body:
+                if isinstance(c, ast.ClassDef):
+                    c.body = [m for m in c.body if not (isinstance(m, ast.FunctionDef) and m.name == name)] or [ast.Pass()]
+    ast.fix_missing_locations(tree)
+    return sorted(set(used))
+
+
+def _enum_rows(tree: ast.Module) -> Dict[str, List[ast.expr]]:
+    """Enum classes of the module -> their members in definition order, as `Class.MEMBER` expressions."""
+    out: Dict[str, List[ast.expr]] = {}
+    for c in tree.body:
+        if isinstance(c, ast.ClassDef) and any((isinstance(b, ast.Name) and b.id in ("Enum", "IntEnum", "Flag"))
+                                                or (isinstance(b, ast.Attribute) and b.attr in ("Enum", "IntEnum")) for b in c.bases):
+            rows = []
+            for st in c.body:
+                if isinstance(st, ast.Assign) and len(st.targets) == 1 and isinstance(st.targets[0], ast.Name) \
+                        and not st.targets[0].id.startswith("_"):
+                    rows.append(ast.Attribute(value=ast.Name(id=c.name, ctx=ast.Load()), attr=st.targets[0].id, ctx=ast.Load()))
+            if rows:
+                out[c.name] = rows
+    return out
+
+
+def _unroll_search_loops(fn: ast.FunctionDef, enum_rows: Dict[str, List[ast.expr]]) -> bool:
+    """for x in EnumClass: if COND(x): break   [else: ORELSE]     (nothing else in the loop)
+    is the search  if COND(m1): x = m1  elif COND(m2): x = m2 ...  else: ORELSE  over the members in definition order."""
+    changed = False
+    for owner in ast.walk(fn):
+        for field in ("body", "orelse", "finalbody"):
+            block = getattr(owner, field, None)
+            if not isinstance(block, list):
+                continue
+            for i, st in enumerate(block):
+                if not (isinstance(st, ast.For) and isinstance(st.iter, ast.Name) and st.iter.id in enum_rows
+                        and isinstance(st.target, ast.Name) and len(st.body) == 1 and isinstance(st.body[0], ast.If)
+                        and not st.body[0].orelse and len(st.body[0].body) == 1 and isinstance(st.body[0].body[0], ast.Break)):
+                    continue
+                rows = enum_rows[st.iter.id]
+                x = st.target.id
+                cond = st.body[0].test
+                if any(isinstance(n, ast.Name) and n.id == x and isinstance(n.ctx, ast.Store) for n in ast.walk(cond)):
+                    continue
+                tail: List[ast.stmt] = list(st.orelse) if st.orelse else \
+                    [ast.Assign(targets=[ast.Name(id=x, ctx=ast.Store())], value=copy.deepcopy(rows[-1]))]
+                for r in reversed(rows):
+                    test = _Subst({x: r}, {}).visit(copy.deepcopy(cond))
+                    tail = [ast.If(test=test, body=[ast.Assign(targets=[ast.Name(id=x, ctx=ast.Store())], value=copy.deepcopy(r))],
+                                   orelse=tail)]
+                new = tail[0]
+                ast.copy_location(new, st)
+                ast.fix_missing_locations(new)
+                block[i] = new
+                changed = True
     return changed
 
 
@@ -1907,8 +2321,14 @@ def _flatten_module(tree: ast.Module, imported: Dict[str, ast.FunctionDef]) -> T
             and any(isinstance(x, ast.Yield) for x in ast.walk(n))}
     all_functions = {n.name: n for n in tree.body if isinstance(n, ast.FunctionDef) and _is_private(n.name)}
     inlined: List[str] = []
+    _Inliner.class_helpers = {(c.name, f.name): f for c in tree.body if isinstance(c, ast.ClassDef) for f in c.body
+                              if isinstance(f, ast.FunctionDef) and f.decorator_list and _eligible(f, True)
+                              and not any(isinstance(k, ast.ClassDef) and k is not c and any(
+                                  isinstance(g, ast.FunctionDef) and g.name == f.name for g in k.body) for k in tree.body)}
     records = _record_classes(tree)
+    _inline_module_literals(tree)
     tables = _module_tables(tree)
+    enums = _enum_rows(tree)
     _inline_constant_dict_copies(tree)
     if not UNDERSCORE_ONLY:
         for node in ast.walk(tree):
@@ -1937,7 +2357,8 @@ def _flatten_module(tree: ast.Module, imported: Dict[str, ast.FunctionDef]) -> T
                 # dispatched dynamically and must not be bound statically here (the evaluator resolves it per class)
                 elsewhere = {f.name for c in tree.body if isinstance(c, ast.ClassDef) and c is not node
                              for f in c.body if isinstance(f, ast.FunctionDef)}
-                mh = {n.name: n for n in node.body if isinstance(n, ast.FunctionDef) and _eligible(n, True) and n.name not in elsewhere}
+                mh = {n.name: n for n in node.body if isinstance(n, ast.FunctionDef) and _eligible(n, True) and n.name not in elsewhere
+                      and not any(isinstance(d, ast.Name) and d.id == "classmethod" for d in n.decorator_list)}
                 for m in node.body:
                     if isinstance(m, ast.FunctionDef):
                         inl = _Inliner(helpers, {k: v for k, v in mh.items() if k != m.name})
@@ -1957,6 +2378,11 @@ def _flatten_module(tree: ast.Module, imported: Dict[str, ast.FunctionDef]) -> T
     for node in ast.walk(tree):
         if isinstance(node, ast.FunctionDef):
             _unroll_table_loops(node, tables)      # again: a helper may have returned the display that is iterated
+            _unroll_search_loops(node, enums)
+            if not UNDERSCORE_ONLY:
+                _inline_search_predicates(node)
+                _inline_expression_closures(node)  # again: a closure handed to an inlined helper is now called directly
+                _any_to_search_loops(node)
             _accumulate_to_comp(node)
             _slice_filters(node)
             _fission(node)
@@ -2126,6 +2552,12 @@ def desugar_dataclasses(tree: ast.Module) -> Tuple[ast.Module, List[str]]:
 
 
 # ----------------------------------------------------------------------
+def expand_contextmanagers(tree: ast.Module) -> Tuple[ast.Module, List[str]]:
+    tree = copy.deepcopy(tree)
+    used = _inline_contextmanagers(tree)
+    return tree, used
+
+
 def expand_format_calls(tree: ast.Module) -> ast.Module:
     """TEMPLATE.format(a, k=b) with TEMPLATE a string literal or a module-level name bound once to one, plain `{}` / `{0}` /
     `{k}` fields (optional !conversion and literal :spec): written as the f-string it denotes, which is the form every
